@@ -78,8 +78,9 @@ func (u *UseCase) UpdateTx(ctx context.Context, oldTxId, newTxId string, filter 
 	}
 
 	err = u.fileRepo.RunTransaction(ctx, func(ctx context.Context) error {
+		seq := sequence.Reserve(len(files))
 		for i := range files {
-			files[i].Seq = sequence.Next()
+			files[i].Seq = seq + sequence.Seq(i)
 			err = u.fileRepo.Set(ctx, files[i])
 			if err != nil {
 				return fmt.Errorf("store to tx: %w", err)
